@@ -35,6 +35,9 @@ def ev_call(ex, e, st):
     if ftxt == 'sum' and 'sum' not in ex.spec.calls and len(e.args) == 1 and isinstance(e.args[0], ast.GeneratorExp):
         r = _sum_count(ex, e.args[0], st)
         if r is not None: return r
+    if ftxt in ('any', 'all') and ftxt not in ex.spec.calls and len(e.args) == 1 and isinstance(e.args[0], ast.GeneratorExp) and not e.keywords:
+        r = _any_all_gen(ex, e.args[0], st, ftxt == 'all')
+        if r is not None: return r
     # 1. function-specific overrides, keyed by the text of the callee expression
     ov = ex.spec.calls.get(ftxt)
     if ov is not None and not isinstance(ov, C.Contract):
@@ -65,6 +68,47 @@ def _sum_count(ex, g, st):
         if isinstance(it, Raise): outs.append((s1, it)); continue
         arr, n = seq_of(it, s1)
         outs.append((s1, ZV('int', seq_count_truthy(arr, n))))
+    return outs
+
+
+def _any_all_gen(ex, g, st, is_all):
+    """any(...)/all(...) of a generator over a symbolic set or map (its keys, or its values with `.values()`): the element
+    expression is evaluated for one arbitrary member; it has to be pure and without exceptional outcome.  -> outcomes | None"""
+    if len(g.generators) != 1 or g.generators[0].is_async: return None
+    gen = g.generators[0]
+    outs = []
+    for s1, it in ex.ev(gen.iter, st):
+        if isinstance(it, Raise): outs.append((s1, it)); continue
+        if isinstance(it, PMap):
+            O = OptOf(it.vkind.sort()); k = fresh('k', it.kkind.sort())
+            by_value = isinstance(gen.iter, ast.Call) and isinstance(gen.iter.func, ast.Attribute) and gen.iter.func.attr == 'values'
+            if by_value:
+                x = fresh('x', it.vkind.sort()); dom = Exists([k], And(O.is_Some(it.arr[k]), O.v(it.arr[k]) == x)); item = it.vkind.wrap(x)
+            else:
+                x = k; dom = O.is_Some(it.arr[k]); item = it.kkind.wrap(x)
+        elif isinstance(it, PSet):
+            x = fresh('x', it.arr.sort().domain()); dom = it.arr[x]
+            item = ZV('ref', x) if it.ekind == 'ref' else ZV('val', x) if it.ekind == 'val' else ZV('str', x)
+        else:
+            return None
+        base = s1.copy(); base.assume(dom); npc = len(base.pc)
+        starts = [s2 for s2, fl in ex.assign(base, gen.target, item) if fl is NEXT]
+        if len(starts) != 1: return None
+        b = starts[0]
+        def pure(s2): return s2.tn.eq(s1.tn) and all(arr.eq(s1.heap[c]) for c, arr in s2.heap.items() if c in s1.heap)
+        cond = BoolVal(True)
+        for test in gen.ifs:
+            alts = []
+            for s2, v in ex.ev(test, b):
+                if isinstance(v, Raise) or not pure(s2): return None
+                alts.append(And(*s2.pc[npc:], truth(v, s2)))
+            cond = And(cond, Or(*alts) if alts else BoolVal(False))
+        alts = []
+        for s2, v in ex.ev(g.elt, b):
+            if isinstance(v, Raise) or not pure(s2): return None
+            alts.append(And(*s2.pc[npc:], truth(v, s2)))
+        T = Or(*alts) if alts else BoolVal(False)
+        outs.append((s1, ZV('bool', ForAll([x], Implies(And(dom, cond), T)) if is_all else Exists([x], And(dom, cond, T)))))
     return outs
 
 
@@ -478,6 +522,10 @@ def isinstance_cond(ex, st, v, cls):
     if isinstance(v, PSet): return BoolVal(_abc_check(set, cls))
     if isinstance(v, PExc):
         c = C.exc_class(v.cls) if v.cls else None
+        if c is None and v.cls in C.PSEUDO_EXC and isinstance(cls, type):
+            # a pseudo class stands for "an exception of its base class that is none of the classes named elsewhere"
+            # (HandlerTypeError: a TypeError; OtherException: an Exception that is not a TypeError, ValueError, edzed error, ...)
+            return BoolVal(any(issubclass(b, cls) for b in C.PSEUDO_EXC[v.cls]))
         if c is None: raise Unsupported('isinstance on exception of unknown class')
         return BoolVal(issubclass(c, cls))
     if isinstance(v, (PClosure, PBound)): return BoolVal(False if cls in (str, int, float, tuple, dict) else _unsup(cls))
@@ -1209,3 +1257,19 @@ def _heapdict_keys(ex, st, recv, pos, named, node):
     if not (ex.spec.heap_dicts and recv.kind == 'val'): return None
     arr = st.readz('st_items', Val.ref(recv.z)); k = fresh('k', StringSort())
     return [(st, PSet(z3.Lambda([k], Opt.is_Some(arr[k])), 'str'))]
+
+
+# ---- sequence.count(x): number of items equal to x (uninterpreted beyond its bounds: which items are equal to x is py_eq's business) ---------------
+seq_count_eq = Function('seq_count_eq', SeqArr, IntSort(), Val, IntSort())
+
+
+def _seq_count(ex, st, recv, pos, named, node):
+    if isinstance(recv, ZV) and recv.kind != 'val': return None
+    if len(pos) != 1: return None
+    arr, n = seq_of(recv, st)
+    r = seq_count_eq(arr, n, to_val(pos[0], st))
+    st = st.copy(); st.assume(0 <= r, r <= n)
+    return [(st, ZV('int', r))]
+
+
+for _w in (ZV, PSeq, PTuple): METHOD_HANDLERS[(_w, 'count')] = _seq_count
